@@ -2,9 +2,11 @@ from props import KERNEL_TB, HARNESS_TB, DEC_TB
 
 PROP = dict(
     title="Lending books balance and borrowing is bounded by loan-to-value",
-    lean_modules=["Comdex.Props.C08"],
+    lean_modules=["Comdex.Props.C08", "Comdex.Props.C08Effects"],
+    gen=["effects"],
     namespaces=["Comdex.C08"],
-    required_theorems=["Comdex.C08.totalLend_eq", "Comdex.C08.totalLend_eq_partial", "Comdex.C08.totalLend_handover_counterexample",
+    required_theorems=["Comdex.C08.lend_pins", "Comdex.C08.lend_table",  # golden effect skeleton of the 14 messages (Props/C08Effects.lean)
+                       "Comdex.C08.totalLend_eq", "Comdex.C08.totalLend_eq_partial", "Comdex.C08.totalLend_handover_counterexample",
                        "Comdex.C08.totalBorrowed_eq", "Comdex.C08.totalStable_eq",
                        "Comdex.C08.borrow_respects_ltv", "Comdex.C08.draw_respects_ltv", "Comdex.C08.borrow_msg_cases",
                        "Comdex.C08.ltv_exact", "Comdex.C08.borrow_accepted_ltv_exact", "Comdex.C08.draw_accepted_ltv_exact",
@@ -19,6 +21,10 @@ PROP = dict(
     harness_tests=["TestC08"],
     monitors=["total_lend", "total_lend_orphaned", "total_borrowed", "total_stable", "ltv", "ltv_exact", "pool_funds", "pledged_safe"],
     trusted_base=[KERNEL_TB, HARNESS_TB, DEC_TB,
+                  "extract/effects (go/ast, no type checking): ordered bank calls of the fourteen lend messages with path conditions, texts "
+                  "normalised; PINNED in Props/C08Effects.lean against a reviewed literal by party / denomination role (13 + 13 abstract texts), "
+                  "positivity class and condition hashes — golden skeleton, not derived from Model/Lend.lean (its bank calls are not data); "
+                  "amounts not compared",
                   "Model/Lend.lean is hand-written from x/lend/keeper/{keeper,funds,rates,iter}.go and x/liquidationsV2/keeper/liquidate.go:360-404; "
                   "tied by delivering generated messages to the real app (ValidateBasic + MsgServiceRouter handler on a cache context) and comparing "
                   "outcome, every lend / borrow record, every pool-asset total and every tracked balance after every message",
